@@ -874,6 +874,37 @@ func lemmaActivationFollowsLastEpoch(b *baseEnabled, e1, e2 uint32, t1, t2 uint6
 //@   ensures[C16] !(completeBase(gasSchedule["BaseOperationCost"]) && completeBuiltIn(gasSchedule["BuiltInCost"])) ==> unchangedAll()
 //@   modifies b.gasConfig, heap(H|builtInFunctions.changeOwnerAddress|.gasCost), heap(H|builtInFunctions.claimDeveloperRewards|.gasCost), heap(H|builtInFunctions.saveUserName|.gasCost), heap(H|builtInFunctions.saveKeyValueStorage|.funcGasCost), heap(H|builtInFunctions.saveKeyValueStorage|.gasConfig.StorePerByte), heap(H|builtInFunctions.saveKeyValueStorage|.gasConfig.ReleasePerByte), heap(H|builtInFunctions.saveKeyValueStorage|.gasConfig.DataCopyPerByte), heap(H|builtInFunctions.saveKeyValueStorage|.gasConfig.PersistPerByte), heap(H|builtInFunctions.saveKeyValueStorage|.gasConfig.CompilePerByte), heap(H|builtInFunctions.saveKeyValueStorage|.gasConfig.AoTPreparePerByte), heap(H|builtInFunctions.esdtTransfer|.funcGasCost), heap(H|builtInFunctions.esdtBurn|.funcGasCost), heap(H|builtInFunctions.esdtLocalMint|.funcGasCost), heap(H|builtInFunctions.esdtLocalBurn|.funcGasCost), heap(H|builtInFunctions.esdtNFTCreate|.funcGasCost), heap(H|builtInFunctions.esdtNFTCreate|.gasConfig.StorePerByte), heap(H|builtInFunctions.esdtNFTCreate|.gasConfig.ReleasePerByte), heap(H|builtInFunctions.esdtNFTCreate|.gasConfig.DataCopyPerByte), heap(H|builtInFunctions.esdtNFTCreate|.gasConfig.PersistPerByte), heap(H|builtInFunctions.esdtNFTCreate|.gasConfig.CompilePerByte), heap(H|builtInFunctions.esdtNFTCreate|.gasConfig.AoTPreparePerByte), heap(H|builtInFunctions.esdtNFTAddQuantity|.funcGasCost), heap(H|builtInFunctions.esdtNFTBurn|.funcGasCost), heap(H|builtInFunctions.esdtNFTTransfer|.funcGasCost), heap(H|builtInFunctions.esdtNFTTransfer|.gasConfig.StorePerByte), heap(H|builtInFunctions.esdtNFTTransfer|.gasConfig.ReleasePerByte), heap(H|builtInFunctions.esdtNFTTransfer|.gasConfig.DataCopyPerByte), heap(H|builtInFunctions.esdtNFTTransfer|.gasConfig.PersistPerByte), heap(H|builtInFunctions.esdtNFTTransfer|.gasConfig.CompilePerByte), heap(H|builtInFunctions.esdtNFTTransfer|.gasConfig.AoTPreparePerByte), heap(H|builtInFunctions.esdtNFTMultiTransfer|.funcGasCost), heap(H|builtInFunctions.esdtNFTMultiTransfer|.gasConfig.StorePerByte), heap(H|builtInFunctions.esdtNFTMultiTransfer|.gasConfig.ReleasePerByte), heap(H|builtInFunctions.esdtNFTMultiTransfer|.gasConfig.DataCopyPerByte), heap(H|builtInFunctions.esdtNFTMultiTransfer|.gasConfig.PersistPerByte), heap(H|builtInFunctions.esdtNFTMultiTransfer|.gasConfig.CompilePerByte), heap(H|builtInFunctions.esdtNFTMultiTransfer|.gasConfig.AoTPreparePerByte), heap(H|builtInFunctions.esdtNFTAddUri|.funcGasCost), heap(H|builtInFunctions.esdtNFTAddUri|.gasConfig.StorePerByte), heap(H|builtInFunctions.esdtNFTAddUri|.gasConfig.ReleasePerByte), heap(H|builtInFunctions.esdtNFTAddUri|.gasConfig.DataCopyPerByte), heap(H|builtInFunctions.esdtNFTAddUri|.gasConfig.PersistPerByte), heap(H|builtInFunctions.esdtNFTAddUri|.gasConfig.CompilePerByte), heap(H|builtInFunctions.esdtNFTAddUri|.gasConfig.AoTPreparePerByte), heap(H|builtInFunctions.esdtNFTupdate|.funcGasCost), heap(H|builtInFunctions.esdtNFTupdate|.gasConfig.StorePerByte), heap(H|builtInFunctions.esdtNFTupdate|.gasConfig.ReleasePerByte), heap(H|builtInFunctions.esdtNFTupdate|.gasConfig.DataCopyPerByte), heap(H|builtInFunctions.esdtNFTupdate|.gasConfig.PersistPerByte), heap(H|builtInFunctions.esdtNFTupdate|.gasConfig.CompilePerByte), heap(H|builtInFunctions.esdtNFTupdate|.gasConfig.AoTPreparePerByte)
 
+// ---- ESDT flag bytes (C20): two bytes, bit 0 of the first is the flag; any other length is the empty value
+
+//@ func ESDTGlobalMetadataFromBytes
+//@   ensures[C20,C04] r.Paused == (len(bytes) == 2 && seq(bytes)[0] % 2 == 1)
+//@ func (metadata *ESDTGlobalMetadata) ToBytes
+//@   requires metadata != nil
+//@   ensures[C20,C04] len(r) == 2 && seq(r)[0] == ite(metadata.Paused, 1, 0) && seq(r)[1] == 0 && fresh(r)
+//@ func ESDTUserMetadataFromBytes
+//@   ensures[C20,C04] r.Frozen == (len(bytes) == 2 && seq(bytes)[0] % 2 == 1)
+//@ func (metadata *ESDTUserMetadata) ToBytes
+//@   requires metadata != nil
+//@   ensures[C20,C04] len(r) == 2 && seq(r)[0] == ite(metadata.Frozen, 1, 0) && seq(r)[1] == 0 && fresh(r)
+
+// lemmaFlagBytesRoundTrip: FromBytes(ToBytes(m)) == m for both flag types, and ToBytes(FromBytes(b)) keeps
+// exactly the flag bit of a two-byte value (every other length gives the empty value 00 00)
+func lemmaFlagBytesRoundTrip(paused bool, frozen bool, b []byte) (bool, bool, []byte, []byte) {
+	g := ESDTGlobalMetadata{Paused: paused}
+	u := ESDTUserMetadata{Frozen: frozen}
+	g2 := ESDTGlobalMetadataFromBytes(g.ToBytes())
+	u2 := ESDTUserMetadataFromBytes(u.ToBytes())
+	g3 := ESDTGlobalMetadataFromBytes(b)
+	u3 := ESDTUserMetadataFromBytes(b)
+	return g2.Paused, u2.Frozen, g3.ToBytes(), u3.ToBytes()
+}
+
+//@ func lemmaFlagBytesRoundTrip
+//@   results p2, f2, gb, ub
+//@   ensures[C20] p2 == paused && f2 == frozen
+//@   ensures[C20] len(gb) == 2 && len(ub) == 2 && seq(gb)[1] == 0 && seq(ub)[1] == 0
+//@   ensures[C20] seq(gb)[0] == ite(len(b) == 2, seq(b)[0] % 2, 0) && seq(ub)[0] == ite(len(b) == 2, seq(b)[0] % 2, 0)
+
 // ---- the function container (C19): each method is one operation of the lock-protected map beneath it (one
 // critical section, see container/zz_contracts_verif.go) with the sequential effect stated here over the
 // map's contents; keys are the function names boxed as interface values.
@@ -983,6 +1014,22 @@ func lemmaEmittedMessageParses(sender []byte, function string, arguments [][]byt
 //@   requires out != nil && noAt(seq(function)) && len(function) > 0
 //@   ensures[C10,C12] err == nil && seq(fn) == seq(function) && len(args) == len(arguments)
 //@   ensures[C10,C12] forall(j, int, 0 <= j && j < len(arguments) ==> seq(args[j]) == seq(arguments[j]))
+//@   modifies out.OutputAccounts, out.GasRemaining
+
+// lemmaEmittedMessageParsesAnyName: the same statement WITHOUT the hypothesis that the function name has no
+// '@'. It is false (known finding F9: the attached-call function name is copied from an argument and not
+// validated, so "a@0b" with argument 09 is emitted as a@0b@09 and parses as a(0b, 09)); the clause is carved
+// out here so that the finding is tied to exactly this input class.
+func lemmaEmittedMessageParsesAnyName(sender []byte, function string, arguments [][]byte, rcpt []byte, out *vmcommon.VMOutput) (string, [][]byte, error) {
+	addOutputTransferToVMOutput(sender, function, arguments, rcpt, 0, vmcommon.DirectCall, out)
+	data := out.OutputAccounts[string(rcpt)].OutputTransfers[0].Data
+	return parsers.NewCallArgsParser().ParseData(string(data))
+}
+
+//@ func lemmaEmittedMessageParsesAnyName
+//@   results fn, args, err
+//@   requires out != nil && len(function) > 0
+//@   ensures[C10,kf:F9] err == nil && seq(fn) == seq(function) && len(args) == len(arguments)
 //@   modifies out.OutputAccounts, out.GasRemaining
 
 // the same for the NFT / multi-transfer message encoder
